@@ -777,10 +777,40 @@ class Cache:
             if begin:
                 assert self._txn_id == tid
                 self._txn_id = None
-                sql('COMMIT')
+                try:
+                    sql('COMMIT')
+                except sqlite3.OperationalError as exc:  # pragma: no cover
+                    self._commit_failed(exc, retry, created)
                 for name in filenames:
                     if name is not None:
                         _disk_remove(name)
+
+    def _commit_failed(self, exc, retry, created):  # pragma: no cover
+        # A busy database keeps the transaction open, e.g. when a reader holds
+        # off the exclusive lock that COMMIT needs with a rollback journal.
+        # Wait for it or give the transaction up: never leave it dangling.
+        sql = self._sql
+        busy = 'database is locked'
+
+        while retry and str(exc) == busy:
+            try:
+                sql('COMMIT')
+                return
+            except sqlite3.OperationalError as again:
+                exc = again
+
+        try:
+            sql('ROLLBACK')
+        except sqlite3.OperationalError:
+            pass
+
+        for name in created:
+            self._disk.remove(name)
+
+        if str(exc) == busy:
+            raise Timeout from None
+
+        raise exc
 
     def _remove_file(self, filename):
         # Inside a transaction of this thread the row removal is not yet
